@@ -172,7 +172,8 @@ def run(v, tier, seed):
                 def on(rec):
                     n[0] += 1
                     # keep one telling sample per kind: non-empty group, longest chain
-                    score = (rec.get("n_pos", False), len(rec.get("chain", [])), rec.get("bl", 0) not in (0, 1), len(rec.get("starts", [])))
+                    score = (rec.get("n_pos", False), len(rec.get("chain", [])), rec.get("n", 0), rec.get("bl", 0) not in (0, 1),
+                             rec.get("pcls", "") == "n*bl>=2^32", sum(sum(e) for e in rec.get("ents", [])))
                     if not first or score > first[0][0]:
                         first[:] = [(score, rec)]
                     f.write(json.dumps(rec, separators=(",", ":")) + "\n")
@@ -233,7 +234,21 @@ def run(v, tier, seed):
     replayed = 0
     per_cfg = {}
     seen_sig = set()
-    for (cfg, b, fs), (mism, stat, p) in zip(rjobs, vlib.parallel(rjobs, lambda j: run_harness(j[1], ["replay"] + j[2], timeout=1400))):
+    def rjob(j):
+        try:
+            return run_harness(j[1], ["replay"] + j[2], timeout=1400)
+        except vlib.InfraError as ex:
+            # the harness died (signal it could not recover from / abort) while
+            # running legal vectors on the real code: a finding, not an
+            # infrastructure problem.  A timeout stays an infrastructure error.
+            m = re.search(r"gave no STAT \(rc=(-?\d+)\)", str(ex))
+            if not m or m.group(1) == "-999":
+                raise
+            import types
+            return ([{"sig": "crash/harness/rc=%s" % m.group(1), "desc": str(ex)[:800], "case": {"files": j[2]}}],
+                    {"evaluations": 0, "mismatches": 1, "vectors": 0, "nontrivial_vectors": 0}, types.SimpleNamespace(stdout=""))
+
+    for (cfg, b, fs), (mism, stat, p) in zip(rjobs, vlib.parallel(rjobs, rjob)):
         total_eval += stat["evaluations"]
         replayed += stat["vectors"]
         pc = per_cfg.setdefault("%s_%s_%s_%s" % cfg, {"evaluations": 0, "mismatches": 0, "vectors": 0, "nontrivial_vectors": 0})
@@ -288,9 +303,8 @@ def run(v, tier, seed):
                 ei = max(i for i, st in enumerate(starts) if st <= ln - 1)
                 ev = json.loads(lines[ln - 1])
                 reset = json.loads(eps[ei][0])
-                keep = os.path.join(vlib.ensure_dir(os.path.join(vlib.REPLAYS, "C12")), "trace_B%dN%d_line%d.ndjson" % (bw, nw, ln))
-                vlib.write(keep, "\n".join(eps[ei]) + "\n")
-                out["rejections"].append((trace_signature(ev, reset, bw, nw), ev, reset, keep, ln - 1 - starts[ei]))
+                keep = os.path.join(vlib.REPLAYS, "C12", "trace_B%dN%d_line%d.ndjson" % (bw, nw, ln))
+                out["rejections"].append((trace_signature(ev, reset, bw, nw), ev, reset, keep, ln - 1 - starts[ei], "\n".join(eps[ei]) + "\n"))
             return out
 
         outs = vlib.parallel(PAIRS, tjob)
@@ -298,11 +312,12 @@ def run(v, tier, seed):
             bw, nw = out["pair"]
             tr_events += out["events"]
             traces_ok += out["accepted"]
-            for sig, ev, reset, keep, pos in out["rejections"]:
+            for sig, ev, reset, keep, pos, text in out["rejections"]:
                 tr_rejected += 1
-                v.violation(sig, "recorded walk on a real %s x %s group is not a behaviour of GroupIter.tla: event %d of the "
-                                 "episode, %s, on group %s" % (W[bw], W[nw], pos, json.dumps(ev), json.dumps(reset)),
-                            {"trace": keep, "event": ev, "reset": reset, "validate": "GroupIterTrace with NW=%d BW=%d" % (nw, bw)})
+                if v.violation(sig, "recorded walk on a real %s x %s group is not a behaviour of GroupIter.tla: event %d of the "
+                                    "episode, %s, on group %s" % (W[bw], W[nw], pos, json.dumps(ev), json.dumps(reset)),
+                               {"trace": keep, "event": ev, "reset": reset, "validate": "GroupIterTrace with NW=%d BW=%d" % (nw, bw)}):
+                    vlib.write(keep, text)     # the episode, for ./verif replay
         # the validation must have teeth: corrupt one observed address in an
         # episode that was accepted => exactly that line is rejected in addition
         canary = None
